@@ -113,6 +113,13 @@ func (ch c17) Run(c *core.Ctx) {
 		case 1: // statement error, simple query
 			sess.Progs[q] = &hs.Prog{Stmts: []*hs.Stmt{{ID: q, Ops: []hs.Op{{K: "err", Err: spec}}}}}
 			in, wantTail = pg.Query(q), "EZ"
+			if idx%6 == 1 {
+				// the error comes after a row that went out and a row that was refused half-way (its last
+				// value cannot be encoded)
+				sess.Progs[q] = &hs.Prog{Stmts: []*hs.Stmt{{ID: q, Cols: textCols(2), Ops: []hs.Op{{K: "row", Vals: []any{"a", "b"}}, {K: "badrow", Vals: []any{"partly written", make(chan int)}}, {K: "err", Err: spec}}}}}
+				wantTail = "TDEZ"
+				c.Count("errors_after_a_refused_row", 1)
+			}
 		case 2: // parser error, extended
 			sess.Progs[q] = &hs.Prog{Err: spec}
 			in, wantTail = append(pg.Parse("", q, nil), pg.Sync()...), "EZ"
